@@ -180,7 +180,8 @@ def run(chk, tier, seed):
              mk([(('ext', '@', ((L('a'),), (L('B'),))),), (('star',),)]), mk([(L('a'), ('esc', '\\'), L('b'))]), mk([(('star',), ('q',), L('A'))]), mk([(L('a'),), (L('B'),)], lead=True)]
     items = [(p, 'fnmatch', False) for p in names] + [(p, 'glob', False) for p in paths] + [(p, 'fnmatch', True) for p in names[::5]] + [(p, 'glob', True) for p in paths[::3]]
     # raw texts: escaped backslashes inside bracket expressions (a separator under the Windows rules), mixed with case
-    rawtexts = ['a[\\\\]b', 'a[xY\\\\]b', 'a[!\\\\]b', '[\\\\a]*', 'a[\\\\][\\\\]b', '?(a[\\\\])B', 'a\\\\b', 'a[/]b', 'a[!/]b']
+    rawtexts = ['a[\\\\]b', 'a[xY\\\\]b', 'a[!\\\\]b', '[\\\\a]*', 'a[\\\\][\\\\]b', '?(a[\\\\])B', 'a\\\\b', 'a[/]b', 'a[!/]b',
+                '@(a/b)', '+(a/|b)c', '!(a/b)', 'x?(/)y', '*(a|/b)']          # a separator written inside an extended group
     cov = lambda t: 'literal-slash' if '[/' in t or '[!/' in t else 'none'      # noqa: E731
     items += [(t, 'fnmatch', False, cov(t)) for t in rawtexts] + [(t, 'fnmatch', True, cov(t)) for t in rawtexts[:3]] + [(t, 'glob', False, cov(t)) for t in rawtexts]
     if tier != 'quick':
